@@ -25,7 +25,9 @@ from pyrtl.rtllib import adders, multipliers
 IMPORTS = 'From PyRTL Require Import Lib.C13Harness.'
 COQ_TARGETS = ['theories/Lib/C13Harness.vo']
 PROPS_FILES = ['theories/Props/C13.v', 'theories/Props/C13Src.v']
-RULE = ('generator x operand widths x parameters x operand values: kogge_stone, ripple_add, '
+RULE = ('translator tie first: every modelled rtllib function must match its frozen template outside 61 '
+        'expression holes, which are regenerated to Gen/C13Src.v and proved equal to the model (Props/C13Src.v); '
+        'then generator x operand widths x parameters x operand values: kogge_stone, ripple_add, '
         'cla_adder(la_unit_len 1..5) with carry-in; tree_multiplier x {wallace,dada} x '
         '{kogge_stone,ripple_add,cla_adder}; signed_tree_multiplier; carrysave_adder x 3 final adders; '
         'fast_group_adder (2..9 operands) and fused_multiply_adder/generalized_fma x 6 '
@@ -1044,25 +1046,28 @@ def ks_structure(wa, wb, cases):
             net = prod.get(w)
             if net is None or net.op != '|':
                 break
-            andn = prod.get(net.args[1])
+            # `old | (prop & src)`: the operands of `|` and of `&` may come in either order
+            old, andw = net.args[0], net.args[1]
+            if not (prod.get(andw) is not None and prod[andw].op == '&') and \
+                    prod.get(old) is not None and prod[old].op == '&':
+                old, andw = andw, old
+            andn = prod.get(andw)
             if andn is None or andn.op != '&':
-                return {'error': 'generate bit %d: an or-net whose second operand is not an and-net' % i}
-            ups.append((net.args[0], andn.args[0], andn.args[1]))   # (old g, prop_old, g source)
-            w = net.args[0]
+                return {'error': 'generate bit %d: an or-net none of whose operands is an and-net' % i}
+            ups.append((old, andn.args[0], andn.args[1], net))   # (old g, prop_old, g source) up to order
+            w = old
         if prod.get(w) is None or prod[w].op != 's':
             return {'error': 'generate bit %d does not start from a bit of a & b' % i}
         ups.reverse()
         chain = [w]
-        ww = finals[i]
         back = []
-        while prod.get(ww) is not None and prod[ww].op == '|':
-            back.append(ww)
-            ww = prod[ww].args[0]
+        for (old_, _p, _g, net_) in reversed(ups):
+            back.append(net_.dests[0])
         chain += list(reversed(back))
         chains.append(chain)
         updates.append(ups)
     variant = len(updates[0])            # 1: cin folded into generate bit 0 (current), 0: pre-fix
-    if variant not in (0, 1) or (variant == 1 and updates[0][0][2] is not c):
+    if variant not in (0, 1) or (variant == 1 and not any(x is c for x in updates[0][0][1:3])):
         return {'error': 'generate bit 0 is not a & b [| prop & cin]'}
     nstage = (n - 1).bit_length()
 
@@ -1074,15 +1079,18 @@ def ks_structure(wa, wb, cases):
         if len(updates[i]) != i.bit_length():
             return {'error': 'generate bit %d is updated in %d stages, the prefix network needs %d' % (
                 i, len(updates[i]), i.bit_length())}
-        for j, (old, pold, gsrc) in enumerate(updates[i]):
+        for j, (old, pold, gsrc, net_) in enumerate(updates[i]):
             if old is not chains[i][j]:
                 return {'error': 'generate bit %d stage %d: chain broken' % (i, j)}
+            if pold is state(i - (1 << j), j) and gsrc is not pold:
+                pold, gsrc = gsrc, pold
+                updates[i][j] = (old, pold, gsrc, net_)
             if gsrc is not state(i - (1 << j), j):
                 return {'error': 'generate bit %d stage %d does not read generate bit %d of the previous stage' % (
                     i, j, i - (1 << j))}
     track = {id(w): w for ch in chains for w in ch}
     for ups in updates:
-        for (old, pold, gsrc) in ups:
+        for (old, pold, gsrc, net_) in ups:
             track[id(pold)] = pold
     tracer = pyrtl.SimulationTrace(wires_to_track=list(track.values()), block=blk)
     sim = pyrtl.Simulation(tracer=tracer, block=blk)
